@@ -3,6 +3,7 @@ package checks
 import (
 	"fmt"
 	textwire "github.com/textwire/textwire/v2"
+	"github.com/textwire/textwire/v2/config"
 	"math"
 	"math/rand"
 	"os"
@@ -567,6 +568,59 @@ func init() {
 					for f := range files {
 						c.Eval(1)
 						c.Guard(func() { textwire.EvaluateFile("c09odd/"+f, map[string]any{"a": 1}) })
+					}
+				}})
+			// failing pages written through Response under every configuration of the error page (none, working, failing itself,
+			// missing, one that uses a layout and a component) and of the debug flag: an error value comes back, never a crash
+			respFaultPages := []string{"a\n{{ 7 % zero }}", "{{ user.name.first }}", "@each(v in 5)x@end", "{{ \"\".nofn() }}", "@for(;;){{ nope }}@end", "{{ [1][zero].x }}", "{{ loop }}", "@component(\"~card\", {t: 1 / zero})", "@use(\"~l\")@insert(\"b\", nope)"}
+			errPages := []string{"", "errors/ok", "errors/fails", "errors/missing", "errors/rich", "errors/recursive"}
+			secs = append(secs, core.Section{Name: "failing-pages-through-response", Exhaustive: true, N: len(respFaultPages) * len(errPages) * 2,
+				Run: func(c *core.Ctx, i int) {
+					debug := i%2 == 1
+					i /= 2
+					ep := errPages[i%len(errPages)]
+					src := respFaultPages[i/len(errPages)]
+					files := map[string]string{"page.tw": src, "good.tw": "fine {{ zero }}", "components/card.tw": "<{{ t }}>", "layouts/l.tw": "<@reserve(\"b\")>", "errors/ok.tw": "sorry", "errors/fails.tw": "sorry {{ 1 / 0 }}",
+						"errors/rich.tw": "@use(\"~l\")@insert(\"b\")@component(\"~card\", {t: \"e\"})@end", "errors/recursive.tw": "@component(\"errors/recursive2\")", "errors/recursive2.tw": "{{ nope }}"}
+					os.RemoveAll("c09resp")
+					if err := writeFiles("c09resp", files); err != nil {
+						c.Inconclusive(err.Error())
+						return
+					}
+					defer os.RemoveAll("c09resp")
+					textwire.VerifResetConfig()
+					var tpl *textwire.Template
+					var err error
+					c.Eval(1)
+					c.Input(map[string]any{"page": src, "error_page": ep, "debug": debug})
+					if c.Guard(func() {
+						tpl, err = textwire.NewTemplate(&config.Config{TemplateDir: "c09resp", TemplateExt: ".tw", ErrorPagePath: ep, DebugMode: debug})
+					}) {
+						return
+					}
+					c.Nontrivial(fmt.Sprint("resp", src, ep, debug))
+					if err != nil || tpl == nil {
+						c.Violation("response:load-failed", fmt.Sprintf("%v", err), map[string]any{"files": describeFiles(files)})
+						return
+					}
+					data := map[string]any{"zero": 0, "user": map[string]any{"name": nil}}
+					for _, name := range []string{"page", "good", "nope", "page"} {
+						rec := newRecorder()
+						var rerr error
+						c.Eval(1)
+						if c.Guard(func() { rerr = tpl.Response(rec, name, data) }) {
+							return
+						}
+						if name == "good" {
+							if rerr != nil || rec.body.String() != "fine 0" {
+								c.Violation("response:good-page", fmt.Sprintf("the page that renders gave (%q, %v)", rec.body.String(), rerr), map[string]any{"error_page": ep})
+							}
+							continue
+						}
+						if rerr == nil {
+							c.Violation("response:fault-not-reported", fmt.Sprintf("Response(%s) of a page that fails (%q) returned no error (error page %q, debug %v); it wrote %q", name, src, ep, debug, clipS(rec.body.String(), 120)), map[string]any{"page": src, "error_page": ep, "debug": debug})
+							return
+						}
 					}
 				}})
 			// several goroutines evaluate at once, with property names, struct types and function names never seen before
